@@ -229,3 +229,4 @@ def run(acc, tier):
         engine.pmap(acc, shard_words, extra=(6,))
         engine.pmap(acc, shard_contain, extra=(4,))
         engine.pmap(acc, shard_generated, extra=(800, 600))
+        engine.fuzz(acc, "contain", CHECKS, 8000, corpus_seeds=[[4, 0, 4, 1, 5, 2, 2, 9, 1]])
